@@ -179,6 +179,8 @@ def c09(ctx):
     n, b = scale(ctx, (2500, 4), (6000, 16))
     sem.split_batches(ctx, "multi", "c09", n, b)
     sem.split_batches(ctx, "pairvars", "c09", n, b)      # amounts, caps and bounds through re-used number / monetary variables
+    # the same corpus with every number beyond 2^64: later statements and the final read-back of the variables must see the values given
+    sem.scale_sem(ctx, "pairvars", "MachineTrace_C09.cfg", scale(ctx, 1000, 8000))
     sem.trace_batches(ctx, "multi", "MachineTrace_C09.cfg", n, min(b, 4), also=("META",))
     return ctx.finish("model_checking", "multi-statement scripts without balance-reading variables; one evaluation = one (script, split point k): whole run vs statements 1..k "
                       "on B and k+1..n on the state TLC printed; non-trivial = both halves produce postings")
